@@ -82,6 +82,10 @@ B("B60", "C14-R1", [(SD, '''            # Attractor data computed while the node
 B("B61", "C14-R1", [(SCC, '''    if not sd.node_data(attach_at)["expanded"] or sd.node_data(attach_at)["skipped"]:
         # Data computed''', '''    if sd.node_data(attach_at)["expanded"]:
         # Data computed''')], "attach: reset guarded by the wrong polarity")
+B("B321", ["C03-G"], [("biobalm/_sd_algorithms/expand_attractor_seeds.py", """        if len(successors) == 0:
+            # Everything is done for this `node` and we can continue to the next one.""", """        if len(successors) >= 0 or True:
+            # Everything is done for this `node` and we can continue to the next one.""")],
+  "expand_attractor_seeds: the 'frame is finished' test always holds, no successor is ever scheduled (mutation sweep 3)")
 B("B320", ["C12-C"], [(SD, """            if len(seeds) > 0:
                 result = compute_attractors_symbolic(""", """            if len(seeds) > 1:
                 result = compute_attractors_symbolic(""")],
